@@ -35,7 +35,8 @@ import (
 
 type ent struct {
 	C int64 `json:"c"`
-	A int64 `json:"a"`
+	A int64 `json:"a"` // first asset
+	B int64 `json:"b"` // second asset (same policy id in the model)
 }
 
 type row struct {
@@ -55,6 +56,7 @@ type row struct {
 	Fee    int64   `json:"fee"`
 	Wds    []int64 `json:"wds"`
 	Mint   int64   `json:"mint"`
+	Mintb  int64   `json:"mintb"`
 	Don    int64   `json:"don"`
 	Nprop  int     `json:"nprop"`
 	Accept bool    `json:"accept"`
@@ -62,6 +64,9 @@ type row struct {
 	PC     int64   `json:"pc"`
 	CA     int64   `json:"ca"`
 	PA     int64   `json:"pa"`
+	CB     int64   `json:"cb"`
+	PB     int64   `json:"pb"`
+	Merged bool    `json:"merged"` // balances only if the two assets are confused
 }
 
 var eraOrder = []string{"shelley", "allegra", "mary", "alonzo", "babbage", "conway", "dijkstra"}
@@ -80,7 +85,7 @@ func hasAssets(e string) bool { return eraIdx(e) >= 2 }
 func ents(es []ent) string {
 	p := make([]string, len(es))
 	for i, e := range es {
-		p[i] = fmt.Sprintf("%d/%d", e.C, e.A)
+		p[i] = fmt.Sprintf("%d/%d/%d", e.C, e.A, e.B)
 	}
 	return strings.Join(p, ",")
 }
@@ -95,9 +100,15 @@ func ints(vs []int64) string {
 
 // caseKey is stable: it names the abstract case completely and contains no random bytes.
 func (r *row) caseKey() string {
-	return fmt.Sprintf("era=%s:certs=%s:pp=%d.%d.%d.%d:in=%s:out=%s:fee=%d:wd=%s:mint=%d:don=%d:prop=%d",
+	// "mint=0" iff nothing is minted or burnt; otherwise both amounts, signed
+	// (the known-finding patterns rely on the first character)
+	mint := "0"
+	if r.Mint != 0 || r.Mintb != 0 {
+		mint = fmt.Sprintf("%+d/%+d", r.Mint, r.Mintb)
+	}
+	return fmt.Sprintf("era=%s:certs=%s:pp=%d.%d.%d.%d:in=%s:out=%s:fee=%d:wd=%s:mint=%s:don=%d:prop=%d",
 		r.Era, strings.Join(r.Certs, "+"), r.PP.Key, r.PP.Pool, r.PP.Drep, r.PP.Gov,
-		ents(r.Ins), ents(r.Outs), r.Fee, ints(r.Wds), r.Mint, r.Don, r.Nprop)
+		ents(r.Ins), ents(r.Outs), r.Fee, ints(r.Wds), mint, r.Don, r.Nprop)
 }
 
 // ---------------------------------------------------------------------------
@@ -122,13 +133,14 @@ func (g *gen) addr(header byte) (common.Address, error) {
 
 // variant of one replay of a case
 type variant struct {
-	sc     int      // scale index
-	mc, ma *big.Int // coin / asset multiplier
-	pol    string   // policy-id / asset-name class
-	policy common.Blake2b224
-	name   []byte
-	decoy  bool // add a second, trivially balanced asset
-	zeroes bool // spell zero asset quantities out instead of omitting them
+	sc     int                  // scale index
+	mc, ma *big.Int             // coin / asset multiplier
+	pol    string               // policy-id class
+	nm     string               // asset-name class: how the two abstract assets are told apart
+	policy [2]common.Blake2b224 // policy id of asset a, b (equal except for nm = "twopol")
+	name   [2][]byte            // asset name of asset a, b
+	decoy  bool                 // add a second, trivially balanced asset
+	zeroes bool                 // spell zero asset quantities out instead of omitting them
 }
 
 func bitlen(v int64) int { return bits.Len64(uint64(v)) }
@@ -155,34 +167,63 @@ func (r *row) maxCoin() int64 {
 }
 
 func (r *row) maxAsset() int64 {
-	m := max(absI(r.Mint), 1)
+	m := max(absI(r.Mint), absI(r.Mintb), 1)
 	for _, e := range r.Ins {
-		m = max(m, e.A)
+		m = max(m, e.A, e.B)
 	}
 	for _, e := range r.Outs {
-		m = max(m, e.A)
+		m = max(m, e.A, e.B)
 	}
 	return m
 }
 
 func (r *row) usesAssets() bool {
-	if r.Mint != 0 {
+	if r.Mint != 0 || r.Mintb != 0 {
 		return true
 	}
 	for _, e := range r.Ins {
-		if e.A != 0 {
+		if e.A != 0 || e.B != 0 {
 			return true
 		}
 	}
 	for _, e := range r.Outs {
-		if e.A != 0 {
+		if e.A != 0 || e.B != 0 {
 			return true
 		}
 	}
 	return false
 }
 
-var polClasses = []string{"zero", "zeroname", "ff", "randempty"}
+var polClasses = []string{"zero", "zeroname", "ff", "rand"}
+
+// asset-name classes: concrete identities of the two abstract assets that a
+// careless map key could confuse
+var nmClasses = []string{"nul", "rand", "empty", "prefix", "last32", "twopol"}
+
+func (g *gen) names(nm string) (a, b []byte) {
+	switch nm {
+	case "nul": // differ by a trailing zero byte
+		return []byte("TOK"), []byte("TOK\x00")
+	case "empty": // the empty name and a single zero byte
+		return []byte{}, []byte{0}
+	case "prefix": // one name is a prefix of the other
+		return []byte("AB"), []byte("ABC")
+	case "last32": // maximal length, differ in the last byte only
+		a = g.bytes(32)
+		b = append([]byte{}, a...)
+		b[31] ^= 1
+		return a, b
+	case "twopol": // the same name under two policy ids
+		a = g.bytes(1 + g.rng.Intn(32))
+		return a, append([]byte{}, a...)
+	}
+	a = g.bytes(1 + g.rng.Intn(32))
+	b = g.bytes(1 + g.rng.Intn(32))
+	if string(a) == string(b) {
+		b = append(b, 1)
+	}
+	return a, b
+}
 
 func (g *gen) variants(r *row, idx int) []variant {
 	one := big.NewInt(1)
@@ -201,23 +242,35 @@ func (g *gen) variants(r *row, idx int) []variant {
 	for i := range vs {
 		v := &vs[i]
 		if !hasAssets(r.Era) {
-			v.pol, v.decoy, v.zeroes = "na", false, false
+			v.pol, v.nm, v.decoy, v.zeroes = "na", "na", false, false
 			continue
 		}
+		// the three replays of a case use three different name classes
+		v.nm = nmClasses[(idx+2*v.sc)%len(nmClasses)]
+		if n := os.Getenv("C27_FORCE_NM"); n != "" {
+			v.nm = n
+		}
+		var pol common.Blake2b224
 		switch v.pol {
-		case "rand":
-			v.policy, v.name = g.h224(), g.bytes(1+g.rng.Intn(32))
-		case "zero": // all-zero policy id, empty asset name
-			v.policy, v.name = common.Blake2b224{}, []byte{}
-		case "zeroname": // all-zero policy id, non-empty asset name
-			v.policy, v.name = common.Blake2b224{}, []byte("x")
+		case "zero": // all-zero policy id, asset a has the empty name
+			v.nm = "empty"
+		case "zeroname": // all-zero policy id, non-empty asset names
+			if v.nm == "empty" {
+				v.nm = "nul"
+			}
 		case "ff":
-			v.policy, v.name = common.NewBlake2b224([]byte(strings.Repeat("\xff", 28))), []byte(strings.Repeat("\xff", 32))
-		case "randempty", "unused":
-			v.policy, v.name = g.h224(), []byte{}
+			pol = common.NewBlake2b224([]byte(strings.Repeat("\xff", 28)))
 		default:
 			v.pol = "rand"
-			v.policy, v.name = g.h224(), g.bytes(1+g.rng.Intn(32))
+			pol = g.h224()
+		}
+		na, nb := g.names(v.nm)
+		if v.pol != "zero" && g.rng.Intn(2) == 0 {
+			na, nb = nb, na
+		}
+		v.policy, v.name = [2]common.Blake2b224{pol, pol}, [2][]byte{na, nb}
+		if v.nm == "twopol" {
+			v.policy[1] = g.h224()
 		}
 	}
 	return vs
@@ -245,19 +298,29 @@ var decoyName = []byte("decoy-asset")
 
 const decoyQty = 5
 
-// assets builds the multi-asset part of an input/output holding q units
-func (v *variant) assets(q int64, withDecoy bool) *common.MultiAsset[common.MultiAssetTypeOutput] {
-	m := map[cbor.ByteString]*big.Int{}
-	if q != 0 || v.zeroes {
-		m[cbor.NewByteString(v.name)] = mul(q, v.ma)
+// assets builds the multi-asset part of an input/output holding qa units of
+// asset a and qb units of asset b
+func (v *variant) assets(qa, qb int64, withDecoy bool) *common.MultiAsset[common.MultiAssetTypeOutput] {
+	m := map[common.Blake2b224]map[cbor.ByteString]*big.Int{}
+	put := func(pol common.Blake2b224, name []byte, q *big.Int) {
+		if m[pol] == nil {
+			m[pol] = map[cbor.ByteString]*big.Int{}
+		}
+		m[pol][cbor.NewByteString(name)] = q
+	}
+	if qa != 0 || v.zeroes {
+		put(v.policy[0], v.name[0], mul(qa, v.ma))
+	}
+	if qb != 0 || v.zeroes {
+		put(v.policy[1], v.name[1], mul(qb, v.ma))
 	}
 	if withDecoy {
-		m[cbor.NewByteString(decoyName)] = big.NewInt(decoyQty)
+		put(v.policy[0], decoyName, big.NewInt(decoyQty))
 	}
 	if len(m) == 0 {
 		return nil
 	}
-	ma := common.NewMultiAsset[common.MultiAssetTypeOutput](map[common.Blake2b224]map[cbor.ByteString]*big.Int{v.policy: m})
+	ma := common.NewMultiAsset[common.MultiAssetTypeOutput](m)
 	return &ma
 }
 
@@ -273,8 +336,8 @@ func (g *gen) output(era string, e ent, v *variant, withDecoy bool) (common.Tran
 	}
 	var as *common.MultiAsset[common.MultiAssetTypeOutput]
 	if hasAssets(era) {
-		as = v.assets(e.A, withDecoy)
-	} else if e.A != 0 || withDecoy {
+		as = v.assets(e.A, e.B, withDecoy)
+	} else if e.A != 0 || e.B != 0 || withDecoy {
 		return nil, fmt.Errorf("era %s output cannot hold assets", era)
 	}
 	val := mary.MaryTransactionOutputValue{Amount: coin, Assets: as}
@@ -416,7 +479,7 @@ func (g *gen) build(r *row, v *variant) (*built, error) {
 		// the spent output may be of any era up to the transaction's
 		lo := 0
 		wd := decoy && i == 0
-		if e.A != 0 || wd || (v.zeroes && hasAssets(era)) {
+		if e.A != 0 || e.B != 0 || wd || (v.zeroes && hasAssets(era)) {
 			lo = 2
 		}
 		oe := eraOrder[lo+g.rng.Intn(min(ei, 5)-lo+1)]
@@ -471,11 +534,20 @@ func (g *gen) build(r *row, v *variant) (*built, error) {
 		}
 	}
 	var mint *common.MultiAsset[common.MultiAssetTypeMint]
-	if hasAssets(era) && (r.Mint != 0 || v.zeroes) {
-		m := common.NewMultiAsset[common.MultiAssetTypeMint](map[common.Blake2b224]map[cbor.ByteString]*big.Int{
-			v.policy: {cbor.NewByteString(v.name): mul(r.Mint, v.ma)}})
+	if hasAssets(era) && (r.Mint != 0 || r.Mintb != 0 || v.zeroes) {
+		mm := map[common.Blake2b224]map[cbor.ByteString]*big.Int{}
+		for i, q := range []int64{r.Mint, r.Mintb} {
+			if q == 0 && !v.zeroes {
+				continue
+			}
+			if mm[v.policy[i]] == nil {
+				mm[v.policy[i]] = map[cbor.ByteString]*big.Int{}
+			}
+			mm[v.policy[i]][cbor.NewByteString(v.name[i])] = mul(q, v.ma)
+		}
+		m := common.NewMultiAsset[common.MultiAssetTypeMint](mm)
 		mint = &m
-	} else if r.Mint != 0 {
+	} else if r.Mint != 0 || r.Mintb != 0 {
 		return nil, fmt.Errorf("era %s cannot mint", era)
 	}
 	outs := make([]common.TransactionOutput, len(r.Outs))
@@ -607,8 +679,8 @@ func (g *gen) build(r *row, v *variant) (*built, error) {
 		b.tx, b.pp = tx, &dijkstra.DijkstraProtocolParameters{ConwayProtocolParameters: cpp}
 	}
 	b.dump["utxo_output_eras"] = b.utxoEras
-	b.dump["policy"] = fmt.Sprintf("%x", v.policy.Bytes())
-	b.dump["asset_name"] = fmt.Sprintf("%x", v.name)
+	b.dump["policy_a_b"] = []string{fmt.Sprintf("%x", v.policy[0].Bytes()), fmt.Sprintf("%x", v.policy[1].Bytes())}
+	b.dump["asset_name_a_b"] = []string{fmt.Sprintf("%x", v.name[0]), fmt.Sprintf("%x", v.name[1])}
 	b.dump["coin_multiplier"] = v.mc.String()
 	b.dump["asset_multiplier"] = v.ma.String()
 	b.dump["decoy_asset"] = decoy
@@ -683,7 +755,7 @@ func errKind(err error) string {
 // disagreements are reported with a per-era cap so that they cannot crowd any
 // other disagreement out of the reporter's budget. "" = no such class.
 func devClass(r *row, v *variant) string {
-	if (v.pol == "zero" || v.pol == "zeroname") && r.Mint != 0 {
+	if (v.pol == "zero" || v.pol == "zeroname") && (r.Mint != 0 || r.Mintb != 0) {
 		return "zeropolicy"
 	}
 	return ""
@@ -766,7 +838,10 @@ func main() {
 				// policy classes only matter when an asset moves
 				v.pol = "unused"
 			}
-			key := fmt.Sprintf("%s:sc=%d:pol=%s", ck, v.sc, v.pol)
+			if v.nm != "na" && !r.usesAssets() && !v.zeroes {
+				v.nm = "unused"
+			}
+			key := fmt.Sprintf("%s:nm=%s:sc=%d:pol=%s", ck, v.nm, v.sc, v.pol)
 			if v.zeroes {
 				key += ":zeroes"
 			}
@@ -779,6 +854,9 @@ func main() {
 				rep.Guard(key, replay, func() {
 					err := er.fn(tx, 0, bt.ls, bt.pp)
 					rep.Case(key, nontrivial)
+					if r.Merged && !r.Accept {
+						stats["mergeonly:"+v.nm]++
+					}
 					k := errKind(err)
 					if r.Accept {
 						stats["spec_accept"]++
@@ -795,8 +873,11 @@ func main() {
 					if r.Accept {
 						want = "accept"
 					}
-					desc := fmt.Sprintf("%s: reference consumed coin/asset %d/%d, produced %d/%d => %s; rule: %s",
-						r.Era, r.CC, r.CA, r.PC, r.PA, want, k)
+					desc := fmt.Sprintf("%s: reference consumed coin/a/b %d/%d/%d, produced %d/%d/%d => %s; rule: %s",
+						r.Era, r.CC, r.CA, r.CB, r.PC, r.PA, r.PB, want, k)
+					if r.Merged && !r.Accept {
+						desc += " [balances only if assets a and b are confused]"
+					}
 					if err != nil {
 						desc += " (" + err.Error() + ")"
 					}
@@ -830,13 +911,20 @@ func main() {
 		if !sampled[sk] && len(r.Certs) >= 2 && len(sampled) < 5 {
 			sampled[sk] = true
 			rep.Sample(map[string]any{"key": ck, "var": r.Var, "spec_accept": r.Accept,
-				"consumed": []int64{r.CC, r.CA}, "produced": []int64{r.PC, r.PA}})
+				"consumed": []int64{r.CC, r.CA, r.CB}, "produced": []int64{r.PC, r.PA, r.PB}})
 		}
 	}
 	rep.Extra["c27_spec_accept_evaluations"] = stats["spec_accept"]
 	rep.Extra["c27_spec_reject_evaluations"] = stats["spec_reject"]
 	rep.Extra["c27_rejections_with_other_error_types"] = otherErrs
 	rep.Extra["c27_disagreements_not_listed_beyond_cap_per_era_and_class"] = suppressed
+	mo := map[string]int{}
+	for k, n := range stats {
+		if strings.HasPrefix(k, "mergeonly:") {
+			mo[strings.TrimPrefix(k, "mergeonly:")] = n
+		}
+	}
+	rep.Extra["c27_evaluations_balancing_only_if_two_assets_are_confused_by_name_class"] = mo
 	rep.Extra["c27_wire_roundtrip_evaluations"] = stats["wire"]
 	rep.Extra["c27_wire_roundtrip_not_possible"] = wireSkipped
 	rep.Extra["c27_wire_roundtrip_first_error"] = wireErr
